@@ -11,6 +11,7 @@ use ssdeep::internal_hashes::{PartialFNVHash, RollingHash};
 use ssdeep::{
     block_hash, block_size, BlockSizeRelation, DualFuzzyHash, FuzzyHash, FuzzyHashCompareTarget,
     Generator, GeneratorError, LongDualFuzzyHash, LongFuzzyHash, LongRawFuzzyHash, ParseError,
+    ParseErrorKind, ParseErrorOrigin,
     ParseErrorInfo, RawFuzzyHash,
 };
 use std::cmp::Ordering;
@@ -59,7 +60,16 @@ fn gen_err(e: GeneratorError) -> String {
     // the size-too-large classification of the error type is part of the error contract (C12)
     let big = matches!(e, GeneratorError::FixedSizeTooLarge | GeneratorError::InputSizeTooLarge);
     if e.is_size_too_large_error() != big { return format!("INCONSISTENT(is_size_too_large_error:{:?})", e); }
-    format!("ERR({:?})", e)
+    format!("ERR({})", gen_err_name(e))
+}
+fn gen_err_name(e: GeneratorError) -> &'static str {
+    match e {
+        GeneratorError::FixedSizeMismatch => "FixedSizeMismatch",
+        GeneratorError::FixedSizeTooLarge => "FixedSizeTooLarge",
+        GeneratorError::InputSizeTooLarge => "InputSizeTooLarge",
+        GeneratorError::OutputOverflow => "OutputOverflow",
+        _ => "UnknownGeneratorError",
+    }
 }
 
 fn nat(s: &str) -> Option<u64> {
@@ -279,8 +289,28 @@ fn run_bs(a: &[&str]) -> String {
 // parse
 // ---------------------------------------------------------------------------------------------
 
+// Names of error kinds / origins are spelled out here (not taken from `Debug`, whose text is not API).
+fn kind_str(k: ParseErrorKind) -> &'static str {
+    match k {
+        ParseErrorKind::BlockSizeIsEmpty => "BlockSizeIsEmpty",
+        ParseErrorKind::BlockSizeStartsWithZero => "BlockSizeStartsWithZero",
+        ParseErrorKind::BlockSizeIsInvalid => "BlockSizeIsInvalid",
+        ParseErrorKind::BlockSizeIsTooLarge => "BlockSizeIsTooLarge",
+        ParseErrorKind::BlockHashIsTooLong => "BlockHashIsTooLong",
+        ParseErrorKind::UnexpectedCharacter => "UnexpectedCharacter",
+        ParseErrorKind::UnexpectedEndOfString => "UnexpectedEndOfString",
+        _ => "UnknownKind",
+    }
+}
+fn origin_str(o: ParseErrorOrigin) -> &'static str {
+    match o {
+        ParseErrorOrigin::BlockSize => "BlockSize",
+        ParseErrorOrigin::BlockHash1 => "BlockHash1",
+        ParseErrorOrigin::BlockHash2 => "BlockHash2",
+    }
+}
 fn perr(e: &ParseError) -> String {
-    format!("ERR {:?} {:?}", e.kind(), e.origin())
+    format!("ERR {} {}", kind_str(e.kind()), origin_str(e.origin()))
 }
 
 const SENTINEL: usize = 0x5EED_1234;
@@ -1039,7 +1069,9 @@ fn run_cmps(a: &[&str]) -> String {
             match guarded(|| ssdeep::compare(sx, sy)) {
                 None => PANIC.into(),
                 Some(Ok(s)) => format!("OK {}", s),
-                Some(Err(e)) => format!("ERR {:?} {:?} {:?}", e.side(), e.kind(), e.origin()),
+                Some(Err(e)) => format!("ERR {} {} {}",
+                    match e.side() { ssdeep::ParseErrorSide::Left => "Left", ssdeep::ParseErrorSide::Right => "Right" },
+                    kind_str(e.kind()), origin_str(e.origin())),
             }
         }
         _ => BAD.into(),
@@ -1280,7 +1312,7 @@ mod stream {
         match r {
             None => PANIC.into(),
             Some(Ok(h)) => format!("OK {}", h),
-            Some(Err(GeneratorOrIOError::GeneratorError(e))) => format!("GENERR {:?}", e),
+            Some(Err(GeneratorOrIOError::GeneratorError(e))) => format!("GENERR {}", gen_err_name(e)),
             Some(Err(GeneratorOrIOError::IOError(e))) => {
                 if with_kind {
                     let k = KINDS.iter().position(|k| *k == e.kind()).map(|p| p as i64).unwrap_or(-1);
